@@ -137,7 +137,8 @@ func (c *gengoCtx) pkgChanged(pkgPath string) bool {
 	if previous == nil || current == nil {
 		return true
 	}
-	return previous.Sum(pkgPath) != current.Sum(pkgPath)
+	// an empty current sum means the directory could not be hashed: never cached
+	return current.Sum(pkgPath) == "" || previous.Sum(pkgPath) != current.Sum(pkgPath)
 }
 
 func (c *gengoCtx) pkgExecute(pctx corecontext.Context, pkg string, generators ...Generator) (finalErr error) {
